@@ -103,6 +103,7 @@ struct Runner {
             Line ret;
             bool hasRet = false, ok = true;
             bool mustNotify = false, mayNotify = false, always = false;
+            Line expectStored; bool haveExpect = false;
             auto idOk = [&](int64_t id) { return id >= 0 && (size_t) id < handles.size(); };
             if (l.empty()) ok = false;
             else switch (l[0]) {
@@ -150,10 +151,20 @@ struct Runner {
             case 11: case 12: case 13: case 14: {
                 Line v(l.begin() + 1, l.end()), r;
                 if (!Codec<T>::ok(v) || !bin(kind, l[0], before, v, r)) { ok = false; break; }
+                expectStored = r; haveExpect = true;
                 if constexpr (std::is_same_v<T, std::string>) { *obs += Codec<T>::dec(v); }
                 else {
                     T x = Codec<T>::dec(v);
-                    if (l[0] == 11) *obs += x; else if (l[0] == 12) *obs -= x; else if (l[0] == 13) *obs *= x; else *obs /= x;
+                    // the operand may have another arithmetic type (unsigned, long long, int for a double): the result is the one of
+                    // the built-in operator on the held type
+                    bool integral = std::is_same_v<T, int> || (v[0] % SCALE == 0);
+                    int64_t whole = std::is_same_v<T, int> ? v[0] : v[0] / SCALE;
+                    int alt = (int) (i % 4);
+                    auto apply = [&](auto y) { if (l[0] == 11) *obs += y; else if (l[0] == 12) *obs -= y; else if (l[0] == 13) *obs *= y; else *obs /= y; };
+                    if (integral && alt == 1 && whole >= 0 && whole < (1LL << 31) && (std::is_same_v<T, double> || l[0] == 11 || l[0] == 12)) apply((unsigned) whole);
+                    else if (integral && alt == 2 && std::llabs(whole) < (1LL << 31)) apply((long long) whole);
+                    else if (integral && alt == 3 && std::is_same_v<T, double> && std::llabs(whole) < (1LL << 31)) apply((int) whole);
+                    else apply(x);
                 }
                 mayNotify = true;
                 break;
@@ -186,6 +197,7 @@ struct Runner {
             }
             if (!ok) { emit({PRE}); continue; }
             Line after = Codec<T>::enc(obs->value());
+            if (haveExpect && after != expectStored) oracle_fail("C16: a compound assignment did not store old (op) operand");
             if (l[0] == 10) {
                 // an Eq-equal assignment leaves the stored value untouched, subscribers or not; any other stores the assigned value
                 Line assigned(l.begin() + 1, l.end());
